@@ -37,7 +37,11 @@ RULE = (
     "metrics; conditional, forall, quantified constructs; durative actions with start/end/over-all conditions and timed "
     "initial literals). One evaluation = one judged comparison (initial state, goal status, one ground instance in one state "
     "pair, one duration, one plan round trip). distinct_nontrivial = distinct (recipe, reader) pairs with >= 1 renamed item or "
-    ">= 1 arithmetic expression of depth >= 2 for which the bisimulation judged at least one applicable state-changing instance."
+    ">= 1 arithmetic expression of depth >= 2 for which the bisimulation judged at least one applicable state-changing instance. "
+    "The case index stratifies the variant (classic / AI-reader friendly / temporal), the duration form and the planted nested "
+    "expression; only the AI-reader friendly cases and a quarter of the others are given to the AI-planning reader in the quick "
+    "tier. Problems for which the writer emits a reserved word of the PDDL BNF as a name (e.g. `assign`) are property C38's "
+    "subject and are not judged (counter rejected-by-C38-defect:keyword-as-name)."
 )
 ASSUMPTIONS = [
     "oracle vk/ref/seqsem.py + vk/ref/bisim.py implement DESIGN 3.2 / 3.5 faithfully; accessors of the model classes do not lie",
